@@ -182,6 +182,7 @@ def run(ctx):
     tab_f(ctx)
     tab_l(ctx)
     sib(ctx)
+    arg_provenance(ctx)
     # the filtered branch consumes / reports payload_length and the filter reaches only filtered_out (C04's rules)
     from rules import C04
     C04.run_cons(ctx)
@@ -464,3 +465,114 @@ def sib(ctx):
                     okall = False
                     R.violation("SIB", "%s|field|%s" % (path, fn), "conversion fills `%s` from %s instead of from the configuration's `%s`" % (fn, rep[:160], fn), function=path, file=b["span"]["f"], line=b["span"]["l"])
         R.instance("SIB", "%s: %d fields mapped name to name%s" % (path.split(" as ")[1][:60], len(fields), "" if okall else " (violations)"))
+
+
+def arg_provenance(ctx):
+    """ARG: what the parser hands the decision function.  dlt_message_intern is analysed with the three header parsers
+    replaced by symbolic results — the standard header once with its ECU id present and once absent — and at the call of
+    filtered_out (i) the ECU id argument is exactly the standard header's own ECU id (a reference to it when present,
+    None when absent — never a value from the storage header or anywhere else), (ii) the extended-header argument is the
+    parsed extended header, (iii) the configuration is the caller's."""
+    from engine.contracts import deref, ret_ty
+    from engine.state import State
+    from rules import lib_parse
+    from rules.lib_wire import restrict
+    F, R = ctx.facts, ctx.report
+    INTERN = lib_parse.INTERN
+    b = F.body(INTERN)
+    if b is None:
+        R.notes.append("ARG: %s not found (not decided)" % INTERN)
+        return
+    fl, ln = b["span"]["f"], b["span"]["l"]
+    hooked = {"parse::dlt_standard_header": "sh", "parse::dlt_storage_header": "sth", "parse::dlt_extended_header": "eh"}
+    n_calls = 0
+    for ecu in ("Some", "None"):
+        eng = Engine(F, budget=3000000)
+        calls = []
+        state = {"built": 0}
+
+        def on_call(eng_, st, fr, f, args, site, ecu=ecu, calls=calls, state=state):
+            p = f.get("resolved") or f["path"]
+            if p in hooked:
+                rt = ret_ty(eng_, site)
+                v = eng_.M.force(st, Top(rt, hooked[p]))
+                if hooked[p] != "sh" or not isinstance(v, Enum):
+                    return [(st, v)]
+                # Ok((rest, header)) with header.ecu_id restricted to the chosen variant; Err left as it is
+                outs = []
+                for vi, fs in v.variants:
+                    if eng_.T.variant_name(v.ty, vi) != "Ok" or not fs:
+                        outs.append((st.fork(), Enum(v.ty, ((vi, fs),), v.name)))
+                        continue
+                    ns = st.fork()
+                    tup = fs[0]
+                    if isinstance(tup, Top):
+                        tup = eng_.M.force(ns, tup)
+                    if not isinstance(tup, Struct) or len(tup.fields) != 2:
+                        return None
+                    state["built"] += 1
+                    loc = "obj:arghdr%d" % state["built"]
+                    ns.locs[loc] = tup.fields[1]
+                    if not restrict(eng_, ns, loc, ["ecu_id"], ecu):
+                        return None
+                    outs.append((ns, Enum(v.ty, ((vi, (Struct(tup.ty, (tup.fields[0], ns.locs[loc])),)),), v.name)))
+                return outs
+            if p.startswith("parse::dlt_payload") or p == "parse::validated_payload_length":
+                return [(st, Top(ret_ty(eng_, site), "pl"))] if p.startswith("parse::dlt_payload") else None
+            if p == FN:
+                def prov(a):
+                    r = repr(a)
+                    if isinstance(a, Enum):
+                        for vi, fs in a.variants:
+                            for x in fs:
+                                if isinstance(x, Ref):
+                                    try:
+                                        r += " -> " + repr(deref(eng_, st, x))
+                                    except Exception:
+                                        r += " -> ?"
+                    return r
+                calls.append([(a, prov(a)) for a in args])
+                return [(st, Bool(("sym", "filtered_out#%d" % len(calls))))]
+            return None
+
+        eng.on_call = on_call
+        try:
+            eng.call_path(INTERN, eng.symbolic_args(b))
+        except Exception as ex:
+            R.notes.append("ARG: %s could not be analysed (%r) (not decided)" % (INTERN, ex))
+            return
+        if not calls or not state["built"]:
+            R.violation("ARG", INTERN + "|no-call", "no call of filtered_out after a parsed standard header was seen in %s" % INTERN, function=INTERN, kind="UNRECOGNISED-SHAPE")
+            return
+        for args in calls:
+            n_calls += 1
+            if len(args) != 3:
+                R.violation("ARG", INTERN + "|arity", "filtered_out is called with %d arguments" % len(args), function=INTERN, kind="UNRECOGNISED-SHAPE")
+                continue
+            (a0, p0), (a1, p1), (a2, p2) = args
+            why = []
+            # (i) ECU id
+            vs = [eng.T.variant_name(a2.ty, vi) for vi, _ in a2.variants] if isinstance(a2, Enum) else None
+            if vs is None:
+                why.append("the ECU id argument is not an Option value (%s)" % repr(a2)[:80])
+            elif ecu == "None" and vs != ["None"]:
+                why.append("the standard header carries no ECU id, yet the decision function is given %s" % ("an ECU id taken from elsewhere (%s)" % ("the storage header" if "sth." in p2 else p2[-120:])))
+            elif ecu == "Some" and vs != ["Some"]:
+                why.append("the standard header carries an ECU id, yet the decision function can be given None")
+            elif ecu == "Some" and ("sh.Ok.0.1.ecu_id" not in p2 or "sth." in p2):
+                why.append("the ECU id argument is not the standard header's own ECU id (%s)" % p2[-160:])
+            # (ii) extended header: whatever is handed over is the parsed extended header
+            if isinstance(a0, Enum):
+                for vi, fs in a0.variants:
+                    if eng.T.variant_name(a0.ty, vi) == "Some" and "eh.Ok.0.1" not in p0:
+                        why.append("the extended-header argument is not the parsed extended header (%s)" % p0[-160:])
+                        break
+            # (iii) the configuration is the caller's
+            if "filter_config_opt" not in p1:
+                why.append("the configuration argument is not the caller's filter configuration (%s)" % p1[-120:])
+            if why:
+                R.violation("ARG", "%s|filtered_out-args|ecu=%s|%s" % (INTERN, ecu, why[0].split(" (")[0][:60]), "%s calls the decision function with the wrong inputs: %s" % (INTERN, "; ".join(why)), function=INTERN, file=fl, line=ln)
+            else:
+                R.obligation("ARG", "%s|filtered_out-args|ecu=%s|%d" % (INTERN, ecu, n_calls), "discharged", "ECU id argument = the standard header's own ECU id (%s), extended header = parsed extended header, configuration = the caller's" % ecu)
+    R.instance("ARG", "%d evaluations of the call of filtered_out (standard header with / without ECU id)" % n_calls)
+    R.floor("ARG", 1)
